@@ -176,9 +176,12 @@ EXTRA = {
     'C05': ' Also: stream format state (number base, float format) is reset before every printed value (shared C12.R3/R5); '
            'January/February adjustment of the day-count formulas; derived-type cache key covers divisor and range (C05.R9).',
     'C06': ' Also: the base used to parse numbers is the one they are printed in (C06.R8, found a genuine octal defect), '
-           'shared stream-state rules C12.R3/R5, calendar constants and month adjustment shared with C05.R6.',
+           'shared stream-state rules C12.R3/R5, calendar constants and month adjustment shared with C05.R6; the range tests '
+           'accept every value decoding can produce (boundary evaluation C06.R9).',
     'C07': ' Also: floating values converted to signed integers are bounded strictly below 2^(w-1); the derived-type cache '
-           'cannot hand a field the range of another definition (shared C12.R2).',
+           'cannot hand a field the range of another definition (shared C12.R2); a text parsed as unsigned contains no minus '
+           'sign (C07.R6, found a genuine defect in parseInt); the n-bit range tests reject exactly the values outside the '
+           'range (boundary evaluation C07.R7).',
     'C09': ' Also: key agreement and exact ID check shared with C08.R1/R2 (a built telegram is identified back); the slice '
            'bound of a chained write part uses the size actually written (found a genuine defect).',
     'C12': ' Also: a conditionally inserted key part must cover every bit count for which the value can vary.',
